@@ -244,9 +244,9 @@ Proof.
     assert (G : forall k t0, (k <= nmax np)%nat -> t_pc t0 = Done -> forall s0, (rank np s0 (goto_nops t0 k IvLoad) < fullw s0 + 113 + nmax np)%nat).
     { intros k t0 Hk _ s0. destruct k; unfold goto_nops, rank; cbn [t_pc with_pc]; lia. }
     unfold rank at 2. rewrite Hpc.
-    destruct (t_tgt t); [| destruct (s_cur s) |]; injection H as <- <-;
-      try (eapply Nat.lt_le_trans; [apply G; [unfold nmax; lia | reflexivity] | lia]).
-    unfold rank. cbn [t_pc with_pc]. lia.
+    destruct (t_tgt t); [| destruct (s_cur s); [destruct (s_tight s)|] |]; injection H as <- <-;
+      try (eapply Nat.lt_le_trans; [apply G; [unfold nmax; lia | reflexivity] | lia]);
+      unfold rank; cbn [t_pc with_pc]; lia.
   - (* CNop *) injection H as <- <-. destruct k; unfold rank; rewrite Hpc; cbn [t_pc with_pc]; lia.
   - (* IvLoad *)
     destruct (w_have (s_word s)); injection H as <- <-; unfold rank; rewrite Hpc; cbn [t_pc with_st]; [rewrite stale_fresh|]; lia.
